@@ -25,6 +25,7 @@ pub fn check_request(s: &mut Stats, fam: &str, r: &Req, depth: Depth, all_cuts_b
         }
         s.evaluations += 1;
         s.transitions += 1;
+        let _call = crate::report::enter(&bytes);
         let res = std::panic::catch_unwind(|| {
             let mut rd = CutReader::new(&bytes, &cuts);
             let x = Request::from_stream(&mut rd, peer);
